@@ -92,6 +92,25 @@ func runB(raw json.RawMessage) *core.Violation {
 		}
 	}()
 	ts := fx.TS
+	wsx.TakeErrors()
+	// overloaded: if a send failed because the teamserver's own write deadline expired (the
+	// harness's reader did not get to run for 10 s) the case gives no verdict
+	noVerdict := func(v *core.Violation) *core.Violation {
+		if v == nil {
+			return nil
+		}
+		errs := wsx.TakeErrors()
+		for _, e := range errs {
+			if strings.Contains(e, "i/o timeout") || strings.Contains(e, "deadline") {
+				wsx.Obs("b:send-hit-the-write-deadline(no verdict)")
+				return nil
+			}
+		}
+		if len(errs) > 0 {
+			v.Msg += fmt.Sprintf("\n[teamserver error log: %v]", errs)
+		}
+		return v
+	}
 	tag := fmt.Sprintf("c%d-", wsx.Nonce())
 
 	type cl struct {
@@ -234,9 +253,10 @@ func runB(raw json.RawMessage) *core.Violation {
 			fr, ok, closed := k.c.Next(wsx.Watchdog)
 			if !ok {
 				if v := judge("operator "+k.user+" (live)", seq, "concurrent-live"); v != nil {
-					return v
+					v.Msg += fmt.Sprintf(" [client reader ended=%v err=%v, %d tagged frames arrived of %d]", closed, k.c.ReadErr, n, total)
+					return noVerdict(v)
 				}
-				return core.V("concurrent-live|missing", "operator %s: only %d of %d events arrived (closed=%v)", k.user, n, total, closed)
+				return noVerdict(core.V("concurrent-live|missing", "operator %s: only %d of %d events arrived (closed=%v)", k.user, n, total, closed))
 			}
 			pk, err := wsx.Decode(fr)
 			if err != nil {
